@@ -187,6 +187,7 @@ type timeline struct {
 	img   *Image
 	chain []map[string]string // infos of ancestor images (own image excluded)
 	phase string
+	unmodelled bool // a raw statement the model cannot follow may have changed the database
 	// probes for the shape fingerprint
 	probes map[string]bool
 }
@@ -594,6 +595,13 @@ func (t *timeline) run() {
 			}
 		}
 		exp := m.Predict(s)
+		if t.unmodelled {
+			exp = &Expect{Unchecked: true, FailAt: -1}
+		}
+		if s.Kind == KRawSQL && !isSelectText(s.SQL) {
+			t.unmodelled = true
+			w.count("raw_mutation")
+		}
 		if !exp.OK && exp.FailAt > 0 && t.r.plan.Prop != "C14" {
 			// a multi-row statement that must be refused at a later row: the
 			// trigger of the open finding F-C14-partial-multirow. Outside the
@@ -646,6 +654,11 @@ func (t *timeline) run() {
 			}
 			if !exp.OK {
 				w.count("stmt_refused")
+				if exp.FailAt > 0 {
+					w.count("stmt_refused_" + s.Kind + "_at_later_row")
+				} else {
+					w.count("stmt_refused_" + s.Kind + "_" + strings.ReplaceAll(exp.ErrAny[0], " ", "_"))
+				}
 				ok := false
 				for _, c := range exp.ErrAny {
 					if strings.Contains(res.Err.Error(), c) {
@@ -690,8 +703,22 @@ func (t *timeline) run() {
 				}
 			}
 		}
+		if s.Kind == KShowDB && res.Err == nil && !t.unmodelled {
+			rows, _, err := storage.ShowDB()
+			var got []string
+			for _, r := range rows {
+				got = append(got, fmt.Sprint(r.Vals[0]))
+			}
+			want := append([]string(nil), m.Order...)
+			sort.Strings(want)
+			if err != nil || strings.Join(got, ",") != strings.Join(want, ",") {
+				t.violate("O-contents", fmt.Sprintf("SHOW DATABASES lists %v (err %v), created were %v", got, err, want), map[string]string{"how": "contents", "class": "databases"}, i)
+				break
+			}
+			w.count("showdb_checked")
+		}
 		// ---- contents ----
-		if s.Kind == KSelect && exp.OK {
+		if s.Kind == KSelect && exp.OK && !exp.Unchecked {
 			db := m.CurDB()
 			tb := db.Table(s.Table)
 			o := &obsTable{}
